@@ -742,7 +742,7 @@ pub fn provenance(seed: u64, tag: &str, blocks: usize, flags: &[&str]) -> Scenar
 }
 
 /// Rune-dense scenario: mature taproot outputs, a few valid etchings, then many transfers.
-pub fn runes(seed: u64, tag: &str, blocks: usize, flags: &[&str]) -> Scenario {
+pub fn runes(seed: u64, tag: &str, blocks: usize, flags: &[&str], chain: &str) -> Scenario {
   let mut g = G::new(seed, tag);
   let plain = GenCfg { blocks: 0, max_txs: 0, inscriptions: false, runes: false, update_every: 0, reopen: false, dup_coinbase: false, junk: false };
   let mut steps = Vec::new();
@@ -804,7 +804,7 @@ pub fn runes(seed: u64, tag: &str, blocks: usize, flags: &[&str]) -> Scenario {
   steps.push(Step::Update);
   Scenario {
     name: format!("{tag}-runes-seed{seed}"),
-    chain: "regtest".into(),
+    chain: chain.into(),
     flags: flags.iter().map(|s| s.to_string()).collect(),
     commit_interval: None,
     savepoint_interval: None,
